@@ -117,13 +117,74 @@ def one_formula(name, names, chunk=30):
     return out
 
 
-def piece_ext_module(name, cases):
+def selector(name, names, chunk=30):
+    """TLA+ lines defining `name`: the case numbered by the variable i holds.  With Init choosing any i outside Excluded,
+    a counterexample to `name` names one disagreeing case (used only on the failure path, see find_failing)."""
+    if not names:
+        return ["%s == TRUE" % name]
+    out, parts = [], []
+    for j in range(0, len(names), chunk):
+        part = "%sPart%d" % (name, j // chunk)
+        out.append("%s == ~(%s)" % (part, " \\/ ".join("(i = %d /\\ ~%s)" % (k, n) for k, n in list(enumerate(names))[j:j + chunk])))
+        parts.append(part)
+    out.append("%s == ~(%s)" % (name, " \\/ ".join("~" + q for q in parts)))
+    return out
+
+
+HEADER = ["VARIABLE", "  \\* @type: Int;", "  i",
+          "\\* i selects a case; Excluded is empty except while the driver looks for the disagreeing cases one after the other",
+          "\\* @type: Set(Int);"]
+
+
+def header(n, excluded):
+    return HEADER + ["Excluded == {%s}" % ", ".join(str(k) for k in sorted(excluded)) if excluded else "Excluded == {-1}",
+                     "Init == i \\in 0..%d /\\ i \\notin Excluded" % max(n - 1, 0), "Next == UNCHANGED i"]
+
+
+def find_failing(c, family, module, make_text, sel_inv, n, max_found=3, timeout=900):
+    """Failure path: name up to max_found disagreeing cases. Apalache checks the selector invariant; its counterexample
+    gives the case number, which is then excluded and the search repeated (one solver run per case found)."""
+    import glob
+    with c._lock:
+        d = c._specdir(family)
+    found = []
+    while len(found) < max_found:
+        with open(os.path.join(d, module + ".tla"), "w") as f:
+            f.write(make_text(set(found)))
+        with Obligations._lock:
+            Obligations._n += 1
+            outdir = c.path("apa-find-%d" % Obligations._n)
+        cmd = ["timeout", str(timeout), "apalache-mc", "check", "--out-dir=" + outdir, "--init=Init", "--next=Next", "--inv=" + sel_inv,
+               "--length=0", module + ".tla"]
+        p = subprocess.run(cmd, cwd=d, stdout=subprocess.PIPE, stderr=subprocess.STDOUT, text=True)
+        try:
+            if "The outcome is: NoError" in p.stdout:
+                break
+            if "The outcome is: Error" not in p.stdout:
+                raise vlib.Infra("apalache failed while looking for the disagreeing case of %s:\n%s" % (module, vlib.tail(p.stdout, 30)))
+            k = None
+            for fn in glob.glob(os.path.join(outdir, "**", "violation*.itf.json"), recursive=True):
+                st = json.load(open(fn))["states"][0]["i"]
+                k = int(st["#bigint"]) if isinstance(st, dict) else int(st)
+                break
+            if k is None or k in found or not (0 <= k < n):
+                raise vlib.Infra("no usable counterexample from apalache for %s (%s)" % (module, k))
+            found.append(k)
+        finally:
+            shutil.rmtree(outdir, ignore_errors=True)
+    # leave the module without exclusions
+    with open(os.path.join(d, module + ".tla"), "w") as f:
+        f.write(make_text(set()))
+    return found
+
+
+def piece_ext_module(name, cases, excluded=()):
     """TLA+ module stating, for every recorded case of the real piecefunc code, that PieceFunc.tla agrees with it.
     cases: list of dict(dots=[[x, y] decimal strings], xs=[...], panicked=bool, ys=[...])."""
     out = ["---- MODULE %s ----" % name,
            "(* generated by checks/c31.py: what the real piecefunc code returned for inputs at the range extremes; *)",
            "(* Apalache checks that PieceFunc!ValidDots and PieceFunc!Get agree with every recorded case.       *)",
-           "EXTENDS PieceFunc", "VARIABLE", "  \\* @type: Int;", "  i", "Init == i = 0", "Next == UNCHANGED i"]
+           "EXTENDS PieceFunc"] + header(len(cases), excluded)
     names = []
     vnames, gnames = [], []
     for k, cs in enumerate(cases):
@@ -140,17 +201,20 @@ def piece_ext_module(name, cases):
             gnames.append("Value%dCase" % k)
     out += one_formula("AllValid", vnames)
     out += one_formula("AllValues", gnames)
+    # failure path: cases are numbered by their position in `cases`
+    out += selector("SelValid", vnames)
+    out += ["SelValues == ~(%s)" % " \\/ ".join(["FALSE"] + ["(i = %d /\\ ~%s)" % (int(g[5:-4]), g) for g in gnames])]
     out.append("====")
     return "\n".join(out) + "\n"
 
 
-def event_wide_module(name, cases):
+def event_wide_module(name, cases, excluded=()):
     """TLA+ module stating, for every recorded verdict of the real eventcheck code on a vector with values up to 2^32-1,
     that EventCheck!WellFormed gives the same verdict.  cases: dicts e, ps, cur, vals, accepted."""
     out = ["---- MODULE %s ----" % name,
            "(* generated by checks/c13.py: verdicts of eventcheck.Checkers.Validate on vectors with field values up to 2^32-1 *)",
            "(* (beyond TLC's integers); Apalache checks that EventCheck!WellFormed gives the same verdict for each.            *)",
-           "EXTENDS EventCheck", "VARIABLE", "  \\* @type: Int;", "  i", "Init == i = 0", "Next == UNCHANGED i"]
+           "EXTENDS EventCheck"] + header(len(cases), excluded)
     names = []
     for k, cs in enumerate(cases):
         e = cs["e"]
@@ -162,5 +226,6 @@ def event_wide_module(name, cases):
         out.append("Case%d == WellFormed(%s, %s, %d, %s) = %s" % (k, ev, ps, cs["cur"], vals, "TRUE" if cs["accepted"] else "FALSE"))
         names.append("Case%d" % k)
     out += one_formula("All", names)
+    out += selector("Sel", names)
     out.append("====")
     return "\n".join(out) + "\n"
